@@ -468,6 +468,11 @@ def run(ctx):
         from .c06 import truthy_role, forwarders
         truthy = truthy_role(roles)
         tkeys = {truthy.key} | forwarders(roles, truthy)
+        # the lazy operation evaluator (src/op/mod.rs) through which map / filter / reduce are run hands (data, operands)
+        # to the operator once and returns its result as a new value, with no exit of its own: what the operators
+        # return is a function of their operands alone
+        from .c04 import operator_receives_operand_list
+        operator_receives_operand_list(ctx, facts, roles, roles.fn_of("map")[1].table, cfg, "K5")
         matrices = {}
         for name in ("map", "filter", "reduce"):
             b, e = roles.fn_of(name)
